@@ -146,11 +146,18 @@ def check_main(argv):
             i = pending.pop(0)
             out = os.path.join(wdir, f'shard_{i}.json')
             log = open(os.path.join(wdir, f'shard_{i}.log'), 'w')
+            wenv = env
+            if getattr(mod, 'NO_ASSERT_SHARDS', False) and i % 2:
+                # odd shards run the code under test with its own assert
+                # statements compiled out (python -O): where the engine's
+                # internal assertions would stop a hand, the invariant
+                # monitors get to see the state it would have reached
+                wenv = dict(env, PYTHONOPTIMIZE='1')
             p = subprocess.Popen(
                 [PY, '-m', 'vflib.run', 'worker', prop, '--seed',
                  str(a.seed), '--shard', str(i), '--of', str(nshards),
                  '--tier', a.tier, '--deadline', str(budget), '--out', out],
-                cwd=ROOT, env=env, stdout=log, stderr=subprocess.STDOUT)
+                cwd=ROOT, env=wenv, stdout=log, stderr=subprocess.STDOUT)
             running[i] = (p, time.time(), log)
         time.sleep(0.05)
         for i, (p, ts, log) in list(running.items()):
